@@ -209,7 +209,7 @@ func parseSpecFile(path string, ps *PkgSpec, trustedFile bool) error {
 			var alias, p string
 			if len(f) == 2 {
 				p, _ = strconv.Unquote(f[1])
-				alias = filepath.Base(p)
+				alias = defaultAlias(p)
 			} else if len(f) == 3 {
 				alias = f[1]
 				p, _ = strconv.Unquote(f[2])
@@ -716,6 +716,9 @@ func existsIdx(f func(int) bool) bool { panic("ghost") }
 func old[T any](x T) T { panic("ghost") }
 func isType[T any](x any) bool { panic("ghost") }
 func asType[T any](x any) T { panic("ghost") }
+func hasKey[K comparable, V any](m map[K]V, k K) bool { panic("ghost") }
+func modPointees(s any) { panic("ghost") }
+func same[T any](a, b T) bool { panic("ghost") }
 func modAddr(p any) { panic("ghost") }
 func modElems(s any) { panic("ghost") }
 func modMap(m any) { panic("ghost") }
@@ -930,6 +933,8 @@ func (ps *PkgSpec) generate(trustedDir string) error {
 					fmt.Fprintf(body, "func %s(%s) { modElems(%s) }\n", c.GoName, join(params, resDecl), t[6:len(t)-1])
 				case strings.HasPrefix(t, "map(") && strings.HasSuffix(t, ")"):
 					fmt.Fprintf(body, "func %s(%s) { modMap(%s) }\n", c.GoName, join(params, resDecl), t[4:len(t)-1])
+				case strings.HasPrefix(t, "pointees(") && strings.HasSuffix(t, ")"):
+					fmt.Fprintf(body, "func %s(%s) { modPointees(%s) }\n", c.GoName, join(params, resDecl), t[9:len(t)-1])
 				case strings.HasPrefix(t, "ptr(") && strings.HasSuffix(t, ")"):
 					fmt.Fprintf(body, "func %s(%s) { modAddr(%s) }\n", c.GoName, join(params, resDecl), t[4:len(t)-1])
 				default:
